@@ -91,7 +91,25 @@ class Run:
         unit, inst, check, unit_c, extra = job
         d = os.path.dirname(unit_c)
         try:
-            if check.engine == 'Z':
+            if check.engine in ('ZS', 'ZD'):
+                # integer-only bodies go to engine Z; bodies with floating point (which Z rejects as
+                # unsupported) fall back to the bit-precise engine on the same text and the same clauses
+                import copy
+                from . import engine_z
+                cz = copy.copy(check)
+                cz.engine = 'Z'
+                if check.engine == 'ZS':
+                    cz.harness = 'hz_' + check.harness[2:]
+                try:
+                    res = engine_z.run(cz, unit_c, d, self.tier, extra)
+                except Undecided as e:
+                    if 'unsupported' not in str(e):
+                        raise
+                    cs = copy.copy(check)
+                    cs.engine = 'S' if check.engine == 'ZS' else 'D'
+                    cs.defines = [x for x in check.defines if not x.startswith('ZSTUB_')]
+                    res = engine_s.run(cs, unit_c, d, self.tier, extra)
+            elif check.engine == 'Z':
                 from . import engine_z
                 res = engine_z.run(check, unit_c, d, self.tier, extra)
             else:
